@@ -15,15 +15,12 @@ namespace mpi = boost::mpi;
 using namespace Pomerol;
 using models::quad; using models::quad_str;
 
-extern "C" __attribute__((used, visibility("default"))) const char* __tsan_default_options() {
-    return "halt_on_error=1:exitcode=66:report_signal_unsafe=0:second_deadlock_stack=0:history_size=4";
-}
 
 typedef std::map<std::string, std::vector<ComplexType> > Tables;
 
-static Tables compute_tables(int model, long mp, bool nosym, int beta, int wf, bool split, const std::vector<std::string>& quads, const std::string& freqs_s, int threads, uint64_t seed, std::string* err, sim::Stats* st) {
+static Tables compute_tables(int model, long mp, bool nosym, int beta, int wf, bool split, const std::vector<std::string>& quads, const std::string& freqs_s, int threads, int procs, uint64_t seed, std::string* err, sim::Stats* st) {
     Tables out;
-    sim::Options o; o.nranks = 1; o.seed = seed; o.inline_single = true; o.omp_threads = threads;
+    sim::Options o; o.nranks = 1; o.seed = seed; o.inline_single = true; o.omp_threads = threads; o.omp_procs = procs;
     sim::World w(o);
     sim::Result r = w.run([&](int) {
         mpi::communicator comm;
@@ -66,6 +63,7 @@ static hc::Outcome run_one(hc::RunSpec& rs) {
     int nm = models::nmodes(model);
     { std::string q; int K = r.range(1, 3); std::set<std::string> seen; for (int k = 0; k < K; k++) { std::string s = models::rand_quad(r, nm); if (!seen.insert(s).second) continue; if (!q.empty()) q += ','; q += s; } c.def("quads", q); }
     c.def("omp", r.range(2, 8));
+    { hc::Rng r2 = r; c.def("oprocs", r2.pick(std::vector<int>{1, 2, 3, 4, 8, 16, 16, 64})); }
     // enough frequency points for every thread to get several iterations; sometimes with adjacent duplicates
     c.def("freqs", r.pct(30) ? models::rand_freqs(r, r.range(4, 12)) : "grid:" + std::to_string(r.pick(std::vector<int>{16, 17, 31, 64, 100})) + (r.pct(30) ? ":2" : ""));
     std::vector<std::string> quads; for (auto& q : hc::split(c.s("quads"), ',')) { bool ok = q.size() == 4; for (char ch : q) if (ch < '0' || ch >= '0' + nm) ok = false; if (ok) quads.push_back(q); }
@@ -74,8 +72,8 @@ static hc::Outcome run_one(hc::RunSpec& rs) {
     hc::announce(rs);
     hc::Outcome oc;
     std::string e1, eT; sim::Stats st;
-    Tables ref = compute_tables(model, c.i("mp"), c.i("nosym") != 0, (int)std::max(1L, c.i("beta")), (int)c.i("wf"), c.i("split") != 0, quads, c.s("freqs"), 1, rs.seed, &e1, nullptr);
-    Tables got = compute_tables(model, c.i("mp"), c.i("nosym") != 0, (int)std::max(1L, c.i("beta")), (int)c.i("wf"), c.i("split") != 0, quads, c.s("freqs"), T, rs.seed, &eT, &st);
+    Tables ref = compute_tables(model, c.i("mp"), c.i("nosym") != 0, (int)std::max(1L, c.i("beta")), (int)c.i("wf"), c.i("split") != 0, quads, c.s("freqs"), 1, (int)c.i("oprocs"), rs.seed, &e1, nullptr);
+    Tables got = compute_tables(model, c.i("mp"), c.i("nosym") != 0, (int)std::max(1L, c.i("beta")), (int)c.i("wf"), c.i("split") != 0, quads, c.s("freqs"), T, (int)c.i("oprocs"), rs.seed, &eT, &st);
     oc.nworlds = 2; oc.st = st; oc.hash = oc.ohash = oc.phash = std::hash<std::string>()(c.str());
     if (!e1.empty()) { oc.verdict = "reference-" + e1.substr(0, e1.find(':')); oc.detail = e1; return oc; }
     if (!eT.empty()) { oc.verdict = eT.substr(0, eT.find(':')); oc.detail = eT; return oc; }
